@@ -140,9 +140,15 @@ theorem list_wire {α : Type} (g : Growth) (hg : g.OK) (c : Codec α) (z : α) (
     (by rw [hs0]; unfold TL.BOUND; omega)
   exact ⟨l', h, by rw [TL.toArray_eq_abs, ha, h0.abs]; rfl⟩
 
-/-- the four element codecs: every int64, every float32/float64 bit pattern (NaN payloads
-    included), every string shorter than 2^31 bytes -/
-theorem int_long_wire (g : Growth) (hg : g.OK) (z : Int) (l l0 : TL Int) (r : Bytes) (hi : TL.Inv l) (h0 : Fresh z l0)
+/-- the five list types with their element codecs: every int / int64 (decimal), every float32 /
+    float64 bit pattern (NaN payloads included), every string shorter than 2^31 bytes — each
+    followed by arbitrary bytes `r`, which are left untouched -/
+theorem int_wire (g : Growth) (hg : g.OK) (z : Int) (l l0 : TL Int) (r : Bytes) (hi : TL.Inv l) (h0 : Fresh z l0)
+    (hsz : l.size < 8388608) (hw : ∀ x ∈ TL.abs l, Prim.inRange 8 x) :
+    ∃ l', P.run (read g decimalCodec z l0) (write decimalCodec l ++ r) = some (l', r) ∧
+      TL.toArray l' = TL.toArray l := list_wire g hg decimalCodec z l l0 r hi h0 hsz hw
+
+theorem long_wire (g : Growth) (hg : g.OK) (z : Int) (l l0 : TL Int) (r : Bytes) (hi : TL.Inv l) (h0 : Fresh z l0)
     (hsz : l.size < 8388608) (hw : ∀ x ∈ TL.abs l, Prim.inRange 8 x) :
     ∃ l', P.run (read g decimalCodec z l0) (write decimalCodec l ++ r) = some (l', r) ∧
       TL.toArray l' = TL.toArray l := list_wire g hg decimalCodec z l l0 r hi h0 hsz hw
@@ -161,6 +167,24 @@ theorem string_wire (g : Growth) (hg : g.OK) (z : Bytes) (l l0 : TL Bytes) (r : 
     (hsz : l.size < 8388608) (hw : ∀ x ∈ TL.abs l, x.length < 2147483648) :
     ∃ l', P.run (read g textCodec z l0) (write textCodec l ++ r) = some (l', r) ∧
       TL.toArray l' = TL.toArray l := list_wire g hg textCodec z l l0 r hi h0 hsz hw
+
+/-- **wire_prefix_fails.**  No strict prefix of a written list reads back, for any element codec
+    (so a truncated list is never mistaken for a shorter one) -/
+theorem wire_prefix_fails {α : Type} (g : Growth) (hg : g.OK) (c : Codec α) (z : α) (l l0 : TL α)
+    (q s : Bytes) (hi : TL.Inv l) (h0 : Fresh z l0) (hsz : l.size < 8388608)
+    (hw : ∀ x ∈ TL.abs l, c.wf x) (hs : s ≠ []) (hq : q ++ s = write c l) :
+    P.run (read g c z l0) q = none := by
+  have hs0 : l0.size = 0 := by cases h0 <;> rfl
+  exact run_read_prefix_fails g hg c z l l0 q s hi h0.inv hsz hw
+    (by rw [hs0]; unfold TL.BOUND; omega) hs hq
+
+/-- reading depends only on the bytes consumed: the same list is read whatever follows -/
+theorem wire_locality {α : Type} (g : Growth) (c : Codec α) (z : α) (l0 l' : TL α) (bs r : Bytes)
+    (h : P.run (read g c z l0) bs = some (l', r)) :
+    ∃ a, bs = a ++ r ∧ ∀ r', P.run (read g c z l0) (a ++ r') = some (l', r') :=
+  P.locality (read g c z l0) bs l' r h
+
+example : P.run (read Growth.go decimalCodec 0 (TL.mk' (0 : Int) 0)) [0, 0, 2, 1, 5] = none := by decide
 
 /-- the bound is sharp: with 2^23 ≤ size < 2^24 the 24-bit count reads back negative and the
     reader takes no element (the error side is stated, not totalised away) -/
